@@ -1112,11 +1112,22 @@ func oracle(c core.Case, out []string) []core.Finding {
 			cs, ok1 := parseSetOut(strings.TrimPrefix(f[3], "cur="))
 			ns, ok2 := parseSetOut(strings.TrimPrefix(f[4], "next="))
 			if ok1 && ok2 {
+				// a set that an earlier Rollback took from a damaged LoadValidators is the known finding
+				tainted := func(q int64) bool { return taintFrom > 0 && q >= taintFrom && (taintTo == 0 || q < taintTo) }
+				known := "state.Rollback.last-change-height-clamped-one-too-low"
 				if t := truth[rh+1]; t != nil && !sameSet(t, cs) {
-					fs = append(fs, core.Finding{Fingerprint: "state.Rollback.validators-not-restored", Desc: "want " + t.String() + " got " + cs.String()})
+					fp := "state.Rollback.validators-not-restored"
+					if tainted(rh + 1) {
+						fp = known
+					}
+					fs = append(fs, core.Finding{Fingerprint: fp, Desc: "Rollback: Validators: want " + t.String() + " got " + cs.String()})
 				}
 				if t := truth[rh+2]; t != nil && !sameSet(t, ns) {
-					fs = append(fs, core.Finding{Fingerprint: "state.Rollback.next-validators-not-restored", Desc: "want " + t.String() + " got " + ns.String()})
+					fp := "state.Rollback.next-validators-not-restored"
+					if tainted(rh + 2) {
+						fp = known
+					}
+					fs = append(fs, core.Finding{Fingerprint: fp, Desc: "Rollback: NextValidators: want " + t.String() + " got " + ns.String()})
 				}
 			}
 			if curLhc > rh+1 {
